@@ -65,8 +65,13 @@ func (n *Node) Depth() int {
 
 // Model is the reference filespace.
 type Model struct {
-	Root  *Node
-	Views [][]string // canonical prefix of each view; Views[0] is the root
+	// SelfCopySnapshot: a directory copied to an absent path below itself (destination parent
+	// exists) is a defined operation – the destination receives a deep copy of the source as it was
+	// before the call (source exists, destination parent exists, destination absent: C02's
+	// preconditions). Off: such a copy stops the history without verdict.
+	SelfCopySnapshot bool
+	Root             *Node
+	Views            [][]string // canonical prefix of each view; Views[0] is the root
 }
 
 // NewModel returns an empty model.
@@ -74,7 +79,7 @@ func NewModel() *Model { return &Model{Root: newDir(), Views: [][]string{{}}} }
 
 // Clone deep-copies the model.
 func (m *Model) Clone() *Model {
-	c := &Model{Root: m.Root.Clone()}
+	c := &Model{Root: m.Root.Clone(), SelfCopySnapshot: m.SelfCopySnapshot}
 	for _, v := range m.Views {
 		c.Views = append(c.Views, append([]string{}, v...))
 	}
@@ -345,7 +350,8 @@ func (m *Model) Step(op Op, got Res) Verdict {
 		if m.fileInChain(p2[:len(p2)-1]) {
 			return expectErr("a file is in the destination's parent chain")
 		}
-		if src.Dir && isPrefix(p1, p2) {
+		selfSnapshot := m.SelfCopySnapshot && src.Dir && isPrefix(p1, p2) && len(p2) > len(p1) && m.Get(p2) == nil && m.Get(p2[:len(p2)-1]) != nil
+		if src.Dir && isPrefix(p1, p2) && !selfSnapshot {
 			// copying a directory into itself: the statement gives no reading
 			if got.Err {
 				v.Lenient = true
@@ -369,7 +375,7 @@ func (m *Model) Step(op Op, got Res) Verdict {
 			v.Ambiguous = true
 			return v
 		}
-		v.PrecondOK = m.Get(p2[:len(p2)-1]) != nil && !(src.Dir && isPrefix(p1, p2))
+		v.PrecondOK = m.Get(p2[:len(p2)-1]) != nil && (selfSnapshot || !(src.Dir && isPrefix(p1, p2)))
 		if !expectOK() {
 			return v
 		}
